@@ -1,8 +1,9 @@
 (* C06 — integration is the area-weighted sum over faces.
    Statements only; each closed by `exact` of a lemma from Proofs/, followed by Print Assumptions.
-   c06_integrate false = UxDataArray.integrate as it is (dispatch on values.shape[-1] only);
-   c06_integrate true  = the repaired dispatch (a last dimension named n_node / n_edge is rejected
-   before sizes are compared). *)
+   c06_integrate_cur = c06_integrate true = UxDataArray.integrate as it is (since fix 3b40859b a last
+   dimension named n_node / n_edge is rejected before sizes are compared);
+   c06_integrate false = the code before the fix (dispatch on values.shape[-1] only), kept as a
+   record of the repaired defect.  The value/linear/dims/one theorems hold for both (forall bn). *)
 From Verif Require Import Base C06 C06_proofs.
 
 (* for every index i of the leading dimensions the result is sum_f area[f] * value[i, f] *)
@@ -48,31 +49,44 @@ Theorem C06_one : forall bn g areas nm tg,
 Proof. exact c06_one. Qed.
 Print Assumptions C06_one.
 
-(* rejection: what the code as it is guarantees (PARTIAL: only when the sizes differ) ... *)
-Theorem C06_reject_by_size_partial : forall g areas a,
-  last (c06_shape a) 0 <> c06_nface g -> forall r, c06_integrate false g areas a <> C06_ok r.
-Proof. exact c06_reject_by_size. Qed.
-Print Assumptions C06_reject_by_size_partial.
-(* ... and the clause "node/edge data are rejected" is REFUTED for the faithful model on grids with
-   coinciding element counts *)
-Theorem C06_reject_refuted :
-  exists g areas a r, last (c06_dims a) 3 = 1 /\ c06_wf a /\
-                      c06_nnode g = c06_nface g /\ c06_integrate false g areas a = C06_ok r.
-Proof. exact c06_reject_refuted. Qed.
-Print Assumptions C06_reject_refuted.
-Theorem C06_reject_edge_refuted :
-  exists g areas a r, last (c06_dims a) 3 = 2 /\ c06_wf a /\
-                      c06_nedge g = c06_nface g /\ c06_integrate false g areas a = C06_ok r.
-Proof. exact c06_reject_edge_refuted. Qed.
-Print Assumptions C06_reject_edge_refuted.
-(* the repaired dispatch rejects node/edge data for all element counts and changes nothing else *)
+(* rejection (current tree): node- and edge-dimensioned data are never integrated, for all element
+   counts (including n_node = n_face and n_edge = n_face) and all leading dimensions *)
+Theorem C06_reject : forall g areas a,
+  c06_shape a <> [] -> (last (c06_dims a) 3 = 1 \/ last (c06_dims a) 3 = 2) ->
+  forall r, c06_integrate_cur g areas a <> C06_ok r.
+Proof. exact c06_reject_cur. Qed.
+Print Assumptions C06_reject.
+(* ... more precisely they raise the node / edge ValueError *)
 Theorem C06_reject_repaired : forall g areas a,
   c06_shape a <> [] -> (last (c06_dims a) 3 = 1 \/ last (c06_dims a) 3 = 2) ->
   c06_integrate true g areas a = C06_node_error \/ c06_integrate true g areas a = C06_edge_error.
 Proof. exact c06_reject_repaired. Qed.
 Print Assumptions C06_reject_repaired.
+(* whatever is integrated is not node/edge-dimensioned and its last dimension has n_face entries *)
+Theorem C06_accept : forall g areas a r,
+  c06_integrate_cur g areas a = C06_ok r ->
+  last (c06_dims a) 3 <> 1 /\ last (c06_dims a) 3 <> 2 /\ last (c06_shape a) 0 = c06_nface g.
+Proof. exact c06_accept_cur. Qed.
+Print Assumptions C06_accept.
+(* the name check changes nothing for data whose last dimension is not named n_node / n_edge *)
 Theorem C06_repair_conservative : forall g areas a,
   last (c06_dims a) 3 <> 1 -> last (c06_dims a) 3 <> 2 ->
   c06_integrate true g areas a = c06_integrate false g areas a.
 Proof. exact c06_repair_conservative. Qed.
 Print Assumptions C06_repair_conservative.
+
+(* ---- record of the repaired defect (code before 3b40859b, size dispatch only) ---- *)
+Theorem C06_size_dispatch_reject_by_size_partial : forall g areas a,
+  last (c06_shape a) 0 <> c06_nface g -> forall r, c06_integrate false g areas a <> C06_ok r.
+Proof. exact c06_reject_by_size. Qed.
+Print Assumptions C06_size_dispatch_reject_by_size_partial.
+Theorem C06_size_dispatch_refuted :
+  exists g areas a r, last (c06_dims a) 3 = 1 /\ c06_wf a /\
+                      c06_nnode g = c06_nface g /\ c06_integrate false g areas a = C06_ok r.
+Proof. exact c06_reject_refuted. Qed.
+Print Assumptions C06_size_dispatch_refuted.
+Theorem C06_size_dispatch_edge_refuted :
+  exists g areas a r, last (c06_dims a) 3 = 2 /\ c06_wf a /\
+                      c06_nedge g = c06_nface g /\ c06_integrate false g areas a = C06_ok r.
+Proof. exact c06_reject_edge_refuted. Qed.
+Print Assumptions C06_size_dispatch_edge_refuted.
